@@ -17,6 +17,7 @@ mod unusable;
 mod registry;
 pub mod parsex;
 mod actionx;
+mod robust;
 
 use std::collections::HashMap;
 
@@ -76,6 +77,7 @@ fn main() {
         "registry" => registry::run(&args),
         "parse" => parsex::run(&args),
         "action" => actionx::run(&args),
+        "robust" => robust::run(&args),
         other => {
             eprintln!("unknown stream {other}");
             std::process::exit(2);
